@@ -1024,6 +1024,80 @@ func c13Inv(r *fw.Run, p *fw.Program) {
 			}
 		}
 	}
+	// OptionsFromValue: a copy of the whole struct handed to a helper (which may keep it in a closure: the bits_format
+	// renderer formats sizes with the copy's Sizebase) is taken only after the fields that helper reads are clamped
+	if fn := getFn(ru, p, "pkg/interp.OptionsFromValue"); fn != nil {
+		var fill ssa.Instruction
+		for _, c := range fw.CallsIn(fn) {
+			if cal := c.Common().StaticCallee(); cal != nil && strings.HasSuffix(cal.String(), "internal/mapstruct.ToStruct") {
+				fill = c
+			}
+		}
+		nCopies := 0
+		if fill != nil {
+			fw.EachInstr(fn, func(ins ssa.Instruction) {
+				ld, ok := ins.(*ssa.UnOp)
+				if !ok || ld.Op != token.MUL || structTypeShort(ld.X.Type()) != "pkg/interp.Options" {
+					return
+				}
+				if _, isStruct := ld.Type().Underlying().(*types.Struct); !isStruct {
+					return
+				}
+				// who receives the copy
+				reads := map[string]bool{}
+				who := ""
+				for _, u := range *ld.Referrers() {
+					c, ok := u.(ssa.CallInstruction)
+					if !ok || c.Common().StaticCallee() == nil {
+						for k := range c13FieldFacts { // unknown receiver: every invariant field
+							if strings.HasPrefix(k, "pkg/interp.Options.") {
+								reads[strings.TrimPrefix(k, "pkg/interp.Options.")] = true
+							}
+						}
+						who += "?"
+						continue
+					}
+					cal := c.Common().StaticCallee()
+					who += cal.Name()
+					var fns []*ssa.Function
+					var add func(f *ssa.Function)
+					add = func(f *ssa.Function) {
+						fns = append(fns, f)
+						for _, a := range f.AnonFuncs {
+							add(a)
+						}
+					}
+					add(cal)
+					for _, f := range fns {
+						fw.EachInstr(f, func(in2 ssa.Instruction) {
+							switch x := in2.(type) {
+							case *ssa.FieldAddr:
+								if structTypeShort(x.X.Type()) == "pkg/interp.Options" {
+									reads[fieldNameOf(x.X.Type(), x.Field)] = true
+								}
+							case *ssa.Field:
+								if structTypeShort(x.X.Type()) == "pkg/interp.Options" {
+									reads[fieldNameOf(x.X.Type(), x.Field)] = true
+								}
+							}
+						})
+					}
+				}
+				nCopies++
+				for k, want := range c13FieldFacts {
+					if !strings.HasPrefix(k, "pkg/interp.Options.") {
+						continue
+					}
+					f := strings.TrimPrefix(k, "pkg/interp.Options.")
+					if !reads[f] {
+						continue
+					}
+					ru.Check(c13EstablishedBefore(fn, fill, ld, f, want), "OptionsFromValue:copy:"+who+":"+f, p.Rel(ld.Pos()), "the copy is taken after the field is clamped",
+						"a copy of the options is handed to "+who+", which reads "+f+", before OptionsFromValue has clamped that field: the helper (and any closure it returns) works with the unclamped value from the jq argument (e.g. sizebase 1 -> illegal number base panic in the snippet renderer) while the returned Options hold the clamped one")
+				}
+			})
+		}
+	}
 	// zero-valued Options / Binary literals: composite literals that leave an invariant field unset
 	for _, fn := range p.FqFunctions() {
 		ord := 0
@@ -1070,6 +1144,12 @@ func c13Inv(r *fw.Run, p *fw.Program) {
 // path passes a test that confines the filled value to the invariant (`if opts.F < 1 { opts.F = 1 }`:
 // the assignment on one arm, the test on the other).
 func c13EstablishedOnAllPaths(fn *ssa.Function, fill ssa.Instruction, okRet *ssa.Return, field string, want fw.Interval) bool {
+	return c13EstablishedBefore(fn, fill, okRet, field, want)
+}
+
+// c13EstablishedBefore: the same, for any instruction of the function as the point that must not be reached with the
+// filled value (the successful return, or a copy of the whole struct handed to a callee).
+func c13EstablishedBefore(fn *ssa.Function, fill ssa.Instruction, target ssa.Instruction, field string, want fw.Interval) bool {
 	env := fw.NewIntervalEnv(fn) // no field invariants: the loads see the filled value
 	isFieldAddr := func(v ssa.Value) bool {
 		fa, ok := v.(*ssa.FieldAddr)
@@ -1107,13 +1187,16 @@ func c13EstablishedOnAllPaths(fn *ssa.Function, fill ssa.Instruction, okRet *ssa
 	var walk func(b *ssa.BasicBlock, from int) bool
 	walk = func(b *ssa.BasicBlock, from int) bool {
 		for i := from; i < len(b.Instrs); i++ {
+			if b.Instrs[i] == target {
+				return false
+			}
 			switch x := b.Instrs[i].(type) {
 			case *ssa.Store:
 				if isFieldAddr(x.Addr) {
 					return true
 				}
 			case *ssa.Return:
-				return x != okRet
+				return true
 			}
 		}
 		for _, s := range b.Succs {
